@@ -17,6 +17,8 @@ for r in results:
         p = os.path.join(s, fn)
         if os.path.isfile(p) and os.path.getsize(p) < 200000 and not fn.endswith(('.pyc', '.o')):
             shutil.copy(p, os.path.join(d, fn))
+        elif os.path.isdir(p) and fn in ('harness', 'shim'):
+            shutil.copytree(p, os.path.join(d, fn), dirs_exist_ok=True, ignore=shutil.ignore_patterns('*.o', '*.pyc', '__pycache__'))
     mp = os.path.join(d, 'meta.json')
     try:
         meta = json.load(open(mp))
